@@ -161,6 +161,8 @@ def run(ctx: core.Ctx):
     evs = []
     for cid, smp in enumerate(cases):
         smp = [list(s) for s in smp]
+        if ctx.tier == "quick" and len(smp) == par["MaxLen"] and (cid + ctx.seed) % 2:
+            continue                      # quick tier: every other sequence of maximal length
         nv = 2 if ctx.tier == "thorough" else 1
         for v in range(nv):
             evs.append(event_for_case(smp, cid, nc, ids, (cid + ctx.seed + v) % 4))
@@ -171,7 +173,7 @@ def run(ctx: core.Ctx):
     ctx.rule = ("every (label, prediction, weight) sequence up to MaxLen over NC classes with weights "
                 "{1,2} (and halves), classes auto or an explicit permutation; non-trivial = at least "
                 "two classes present and an off-diagonal sample")
-    ctx.exhaustive = True
+    ctx.exhaustive = ctx.tier == "thorough"
     ctx.extra["constants"] = par
     ctx.assumptions = ["small-scope: NC=3, short sequences; leading shape X=(2,) for the stacked part"]
     return ctx.finish()
